@@ -91,7 +91,9 @@ def check_sequence_files(ctx):
     rep.functions.add(frl.qualname)
     ys = [n for n in ast.walk(frl.node) if isinstance(n, ast.Yield)]
     fl = [s for s in stmts_in(frl.node.body) if isinstance(s, ast.For)]
-    okr = len(ys) == 1 and len(fl) == 1 and u(fl[0].iter) == 'file' and u(ys[0].value) == u(fl[0].target)
+    wv = [u(i.optional_vars) for s in stmts_in(frl.node.body) if isinstance(s, ast.With) for i in s.items if i.optional_vars is not None and isinstance(i.context_expr, ast.Call)
+          and u(i.context_expr.func) == 'maybe_open' and u(i.context_expr.args[0]) == frl.params()[0]]
+    okr = len(ys) == 1 and len(fl) == 1 and len(wv) == 1 and u(fl[0].iter) == wv[0] and u(ys[0].value) == u(fl[0].target)
     rep.add('A1', frl.site(), 'read_lines yields the lines of the file in file order', okr, expected='for line in file: ... yield line', found=[u(f)[:60] for f in fl], stmt='read_lines order')
 
 
@@ -168,7 +170,10 @@ def check_query_paths(ctx):
     gst = next((s for s in stmts_in(fc.node.body) if isinstance(s, ast.Assign) and gs and s.value is gs[0]), None)
     rep.add('A3', fc.site(gst), 'the pair is unpacked as (ids, files)', gst is not None and isinstance(gst.targets[0], ast.Tuple) and [u(e) for e in gst.targets[0].elts] == [u(labels), u(c.args[1])], expected='ids, files = ...',
             found=u(gst.targets[0]) if gst is not None else None, stmt='cmd unpack')
-    rep.add('A3', fc.site(c), 'the query runs against the loaded database with the command parameters', u(c.args[0]) == 'db' and u(c.args[2]) == 'params', expected='query_parse(db, files, params, ...)', found=u(c)[:60], stmt='cmd query_parse operands')
+    dbd = def_value(reaching_def(fc.node, c.args[0].id, st)) if isinstance(c.args[0], ast.Name) and reaching_def(fc.node, c.args[0].id, st) not in (None, PARAM, AMBIGUOUS) else None
+    prd = def_value(reaching_def(fc.node, c.args[2].id, st)) if len(c.args) > 2 and isinstance(c.args[2], ast.Name) and reaching_def(fc.node, c.args[2].id, st) not in (None, PARAM, AMBIGUOUS) else None
+    rep.add('A3', fc.site(c), 'the query runs against the loaded database with the command parameters', isinstance(dbd, ast.Call) and callee_attr(dbd) == 'get_database' and isinstance(prd, ast.Call)
+            and m.resolve_call(fc, prd) == 'gambit.query.QueryParams', expected='query_parse(<ctx.obj.get_database()>, files, <QueryParams(...)>, ...)', found=(u(dbd), u(prd)), stmt='cmd query_parse operands')
     # sig channel (A5)
     qq = [x for x in calls_in(fc.node) if m.resolve_call(fc, x) == 'gambit.query.query']
     rep.require(len(qq) == 1, 'query_cmd: expected one query() call')
@@ -236,7 +241,9 @@ def check_query(ctx):
     rep.functions.add(fi.qualname)
     gm = guard_map(fi.node)
     dbp, qp, pp = fi.params()[:3]
-    items = [s for s in stmts_in(fi.node.body) if isinstance(s, ast.Assign) and u(s.targets[0]) == 'items']
+    ret0 = fi.node.body[-1]
+    items_name = u(get_kw(ret0.value, 'items')) if isinstance(ret0, ast.Return) and isinstance(ret0.value, ast.Call) and get_kw(ret0.value, 'items') is not None else 'items'
+    items = [s for s in stmts_in(fi.node.body) if isinstance(s, ast.Assign) and u(s.targets[0]) == items_name]
     rep.require(len(items) == 1 and isinstance(items[0].value, ast.ListComp), 'query: items is not a single list comprehension')
     lc = items[0].value
     g = lc.generators[0]
@@ -247,7 +254,8 @@ def check_query(ctx):
     e = lc.elt
     oke = isinstance(e, ast.Call) and m.resolve_call(fi, e) == 'gambit.query.get_result_item' and len(e.args) == 4 and u(e.args[0]) == dbp and u(e.args[3]) == inp
     dm = e.args[2] if oke else None
-    okr = isinstance(dm, ast.Subscript) and u(dm.slice) in (f'({i}, slice(None, None, None))', f'{i}') or (isinstance(dm, ast.Subscript) and u(dm) in (f'dmat[{i}, :]', f'dmat[{i}]'))
+    okr = isinstance(dm, ast.Subscript) and isinstance(dm.value, ast.Name) and u(dm) in (f'{u(dm.value)}[{i}, :]', f'{u(dm.value)}[{i}]')
+    dmat_name = u(dm.value) if isinstance(dm, ast.Subscript) else None
     rep.add('A4', fi.site(lc), 'item i is built from row i of the distance matrix and input i (same index)', oke and okr, expected=f'get_result_item({dbp}, params, dmat[{i}, :], {inp})', found=u(e), stmt='row/input pairing')
     src_root = align.source(m, fi, g.iter.args[0], items[0])[0]
     mats = [c for c in calls_in(fi.node) if m.resolve_call(fi, c) == 'gambit.metric.jaccarddist_matrix']
@@ -256,6 +264,8 @@ def check_query(ctx):
     mst = next(s for s in fi.node.body if any(x is mc for x in ast.walk(s)))
     rows_root = align.source(m, fi, mc.args[0], mst)[0]
     rep.add('A4', fi.site(mc), 'matrix rows follow the query signatures in the given order', rows_root == qp, expected=qp, found=rows_root, stmt='matrix rows')
+    rep.add('A4', fi.site(mc), 'the rows classified are rows of that distance matrix', isinstance(mst, ast.Assign) and u(mst.targets[0]) == dmat_name, expected='dmat = jaccarddist_matrix(...)', found=(u(mst.targets[0]) if isinstance(mst, ast.Assign) else None, dmat_name),
+            stmt='matrix variable')
     if src_root == '?inputs':
         # assigned on both sides of `if inputs is not None`: every definition must be an order-preserving image of the
         # parameter, or the default numbering over the queries
@@ -276,7 +286,7 @@ def check_query(ctx):
     ql = [s for s in fi.node.body if isinstance(s, ast.Assign) and u(s.targets[0]) == qp]
     rep.add('A4', fi.site(ql[0] if ql else None), 'the query sequence is materialised once, order kept', len(ql) == 1 and u(ql[0].value) == f'list({qp})', expected=f'{qp} = list({qp})', found=[u(x.value) for x in ql], stmt='queries list')
     ret = fi.node.body[-1]
-    okret = isinstance(ret, ast.Return) and isinstance(ret.value, ast.Call) and u(get_kw(ret.value, 'items')) == 'items'
+    okret = isinstance(ret, ast.Return) and isinstance(ret.value, ast.Call) and u(get_kw(ret.value, 'items')) == items_name and m.resolve_call(fi, ret.value) == 'gambit.query.QueryResults'
     rep.add('A4', fi.site(ret), 'the results carry the items list as built', okret, expected='QueryResults(items=items, ...)', found=u(ret)[:60], stmt='results items')
     gri = m.func('gambit.query.get_result_item')
     ctor = [c for c in calls_in(gri.node) if m.resolve_call(gri, c) == 'gambit.query.QueryResultItem']
@@ -373,7 +383,8 @@ def check_exporters(ctx):
     fe = m.func('gambit.results.CSVResultsExporter.export')
     rep.functions.add(fe.qualname)
     loops = [s for s in stmts_in(fe.node.body) if isinstance(s, ast.For)]
-    ok = len(loops) == 1 and u(loops[0].iter) == f'{fe.params()[2]}.items' and len(loops[0].body) == 1 and u(loops[0].body[0]) == f'writer.writerow(self.get_row({u(loops[0].target)}))'
+    wn = next((u(s.targets[0]) for s in stmts_in(fe.node.body) if isinstance(s, ast.Assign) and isinstance(s.value, ast.Call) and u(s.value.func) == 'csv.writer'), 'writer')
+    ok = len(loops) == 1 and u(loops[0].iter) == f'{fe.params()[2]}.items' and len(loops[0].body) == 1 and u(loops[0].body[0]) == f'{wn}.writerow(self.get_row({u(loops[0].target)}))'
     rep.add('A8', fe.site(loops[0] if loops else None), 'CSV: one row per result item, in item order', ok, expected='for item in results.items: writer.writerow(self.get_row(item))', found=[u(l)[:80] for l in loops], stmt='csv rows')
     fj = m.func('gambit.results.JSONResultsExporter._results_to_json')
     rep.functions.add(fj.qualname)
